@@ -465,7 +465,7 @@ pub fn eval_unit_name(
             },
             BinOpType::Add | BinOpType::Sub => {
                 let (left_unit, left) = eval_unit_name(ctx, &binop.left)?;
-                let (right_unit, _right) = eval_unit_name(ctx, &binop.right)?;
+                let (right_unit, right) = eval_unit_name(ctx, &binop.right)?;
 
                 if left_unit != right_unit {
                     return Err(QueryError::generic(
@@ -474,7 +474,12 @@ pub fn eval_unit_name(
                             .to_string(),
                     ));
                 }
-                Ok((left_unit, left))
+                let value = if binop.op == BinOpType::Add {
+                    &left + &right
+                } else {
+                    &left - &right
+                };
+                Ok((left_unit, value))
             }
             BinOpType::Frac => {
                 let (left_unit, left) = eval_unit_name(ctx, &binop.left)?;
